@@ -752,6 +752,7 @@ func runC01(r *core.Run) {
 	}
 	n := txnScriptReplay(r, []string{"TxnScriptGen.cfg", "TxnScriptGen_commitfail.cfg", "TxnScriptGen_create.cfg", "TxnScriptGen_temp.cfg", "TxnScriptGen_two.cfg", "TxnScriptGen_nested.cfg", "TxnScriptGen_dirs.cfg"}, nsim, "c01")
 	c01Interrupts(r)
+	c01Unencodable(r)
 	r.Coverage["traces_validated_against_impl"] = n
 	r.Coverage["exhaustive"] = false
 }
@@ -1107,4 +1108,44 @@ func lastLine(s string) string {
 		return s[i+1:]
 	}
 	return s
+}
+
+// c01Unencodable: a procedure whose last state cannot be written in the table's format (JSON Lines: two columns whose names
+// are conflicting paths; LTSV: a tab in a value; Shift_JIS: a character it does not have) ends by an error at the automatic
+// COMMIT - or at its own COMMIT - and then every file, the other changed tables too, is as it was.
+func c01Unencodable(r *core.Run) {
+	jl := "{\"id\":1,\"status\":\"open\"}\n{\"id\":2,\"status\":\"open\"}\n{\"id\":3,\"status\":\"done\"}\n"
+	lt := "id:1\tc:x\nid:2\tc:y\n"
+	for _, sc := range []binScenario{
+		{Name: "unenc.jsonl", Tables: map[string]string{"e.jsonl": jl, "f2.csv": rowsCSV(3, 0)},
+			SQL: "UPDATE `f2.csv` SET n = n + 1;\nUPDATE `e.jsonl` SET status = 'done' WHERE id = 2;\nALTER TABLE `e.jsonl` ADD `status.code` DEFAULT 0;\nSELECT COUNT(*) FROM `e.jsonl`;\n"},
+		{Name: "unenc.jsonl.commit", Tables: map[string]string{"e.jsonl": jl, "f2.csv": rowsCSV(3, 0)},
+			SQL: "ALTER TABLE `e.jsonl` ADD `status.code` DEFAULT 0;\nUPDATE `f2.csv` SET n = n + 1;\nCOMMIT;\nUPDATE `f2.csv` SET n = n + 1;\n"},
+		{Name: "unenc.ltsv", Tables: map[string]string{"t.ltsv": lt, "f2.csv": rowsCSV(3, 0)},
+			SQL: "UPDATE `f2.csv` SET n = n + 1;\nUPDATE `t.ltsv` SET c = 'a\\tb' WHERE id = 2;\nCREATE TABLE `f3.csv` (n);\n"},
+		{Name: "unenc.sjis", Tables: map[string]string{"t.tsv": "id\tc\n1\tx\n2\ty\n", "f2.csv": rowsCSV(3, 0)},
+			SQL: "ALTER TABLE `t.tsv` SET ENCODING TO SJIS;\nUPDATE `t.tsv` SET c = '한' WHERE id = 1;\nUPDATE `f2.csv` SET n = n + 1;\nCOMMIT;\n"},
+	} {
+		snap, res, _ := runSignalScenario(r, sc, nil)
+		what := ""
+		switch {
+		case res.IsFatal():
+			what = "internal failure: " + firstLine(res.Stderr)
+		case res.Exit == 0:
+			what = "the procedure ended successfully although its last state cannot be written: " + fmt.Sprint(describeSnap(snap))
+		default:
+			for n, c := range sc.Tables {
+				if snap[n] != c {
+					what = fmt.Sprintf("the procedure ended by an error (exit %d: %s) but %s was changed: %v", res.Exit, firstLine(res.Stderr), n, describeSnap(snap))
+				}
+			}
+			if len(snap) != len(sc.Tables) {
+				what = fmt.Sprintf("the procedure ended by an error (exit %d) but the directory holds %v", res.Exit, describeSnap(snap))
+			}
+		}
+		r.Count("unencodable_procedures", 1)
+		if what != "" {
+			r.Violation("c01:unencodable:"+strings.TrimPrefix(sc.Name, "unenc."), fmt.Sprintf("procedure %q: %s", sc.SQL, what), map[string]interface{}{"sql": sc.SQL})
+		}
+	}
 }
